@@ -81,6 +81,8 @@ def _cases(draw):
         c["alias"] = {k: g.pick(v) for k, v in ALIAS.items() if k in s and P(0.5)}
     if P(0.35):
         c["stem"] = g.pick(STEMS)
+        # the suffix is only a hint: upper-case, unknown or missing suffixes must still supply the stem
+        c["suffix"] = g.pick(["", "", "", "upper", ".txt", "none"])
     if P(0.3):
         form.setdefault("args", {})["form_name"] = uniq("argname")
     if not form["settings"]:
@@ -100,6 +102,18 @@ def run_form_of(case):
     return form
 
 
+def _suffix(case, normal):
+    sfx = case.get("suffix") or ""
+    return {"": normal, "upper": normal.upper(), "none": ""}.get(sfx, sfx)
+
+
+def file_stem(case):
+    import pathlib
+
+    ext = ".md" if render.md_ok(run_form_of(case)) else ".xlsx"
+    return pathlib.Path(case["stem"] + _suffix(case, ext)).stem
+
+
 def run(case):
     form = run_form_of(case)
     args = {k: v for k, v in form.get("args", {}).items() if k in ("form_name", "default_language")}
@@ -107,11 +121,11 @@ def run(case):
         d = tempfile.mkdtemp(prefix="vf_c11_")
         try:
             if render.md_ok(form):
-                path = os.path.join(d, case["stem"] + ".md")
+                path = os.path.join(d, case["stem"] + _suffix(case, ".md"))
                 with open(path, "w", encoding="utf-8") as f:
                     f.write(render.to_md(form))
             else:
-                path = os.path.join(d, case["stem"] + ".xlsx")
+                path = os.path.join(d, case["stem"] + _suffix(case, ".xlsx"))
                 with open(path, "wb") as f:
                     f.write(render.to_xlsx(form))
             from pyxform.errors import PyXFormError
@@ -155,7 +169,7 @@ def evaluate(case) -> Outcome:
         # file containers: cells are trimmed and non-breaking spaces read as spaces (documented, see C12)
         as_md = render.md_ok(run_form_of(case))
         s = {k: (val if as_md else val.replace("\xa0", " ")).strip() for k, val in s.items()}
-    exp_id = s.get("form_id", stem if stem is not None else "data")
+    exp_id = s.get("form_id", file_stem(case) if stem is not None else "data")
     exp_title = s.get("form_title", exp_id)
     exp_root = s.get("name") or form.get("args", {}).get("form_name") or "data"
     prim = v.primary
